@@ -508,7 +508,7 @@ const TRAP_LINE: &str = "trap 'probe -s 9 T; (probe -s 3 X); probe -s 8 T2' USR1
 
 /// Generate a script whose main-shell commands are all probes (so `$?` is deterministic at every
 /// point), with compound commands, functions, subshells, substitutions, pipelines and async+wait.
-fn gen_script(rng: &mut Rng) -> String {
+fn gen_script(rng: &mut Rng, interactive: bool) -> String {
     let mut next = 0u32;
     let mut p = |rng: &mut Rng| {
         next += 1;
@@ -530,6 +530,11 @@ fn gen_script(rng: &mut Rng) -> String {
             8 => format!("x=$({}; {}); {}", p(rng), p(rng), p(rng)),
             9 => format!("{} | {}; {}", p(rng), p(rng), p(rng)),
             10 => format!("{} && {} || {}", p(rng), p(rng), p(rng)),
+            // the shell itself blocks in the `read` built-in until the feeder supplies the line
+            11 if interactive => {
+                let pr = p(rng);
+                format!("read a; {pr} \"$a\"\nsome data")
+            }
             _ => format!("case a in a) {}; {};; esac", p(rng), p(rng)),
         };
         s.push_str(&line);
@@ -549,8 +554,16 @@ enum Inject {
     Random(u32, u64),
 }
 
-fn run_with_injection(script: &str, strategy: Strategy, inj: Inject) -> vsh::VOut {
-    let mut cfg = vsh::VCfg::script(script);
+fn run_with_injection(script: &str, strategy: Strategy, inj: Inject, interactive: bool) -> vsh::VOut {
+    let mut cfg = if interactive {
+        // an interactive shell (job control off) reading commands from a pipe that a feeder
+        // process writes line by line
+        let mut c = vsh::VCfg::with_args(vec!["yash".into(), "-i".into(), "+m".into()]);
+        c.stdin_chunks = Some(script.split_inclusive('\n').map(|l| l.as_bytes().to_vec()).collect());
+        c
+    } else {
+        vsh::VCfg::script(script)
+    };
     cfg.strategy = strategy;
     cfg.extra = vsh::v_probes();
     let mut rng = Rng::new(match inj {
@@ -599,7 +612,12 @@ fn main_ordinary(events: &[Event]) -> Vec<(String, i32)> {
 }
 
 /// The event-log checker. Returns Err(signature, explanation).
-fn check_timeline(base: &[(String, i32)], base_all: &[Event], out: &vsh::VOut) -> Result<u32, (String, String)> {
+fn check_timeline(
+    base: &[(String, i32)],
+    base_all: &[Event],
+    probe_status: &BTreeMap<String, i32>,
+    out: &vsh::VOut,
+) -> Result<u32, (String, String)> {
     if out.end != vsh::End::Done {
         return Err(("no-termination".into(), format!("{:?}", out.end)));
     }
@@ -638,6 +656,13 @@ fn check_timeline(base: &[(String, i32)], base_all: &[Event], out: &vsh::VOut) -
                     // substitution), what the first probe of that command sees: the trap may run
                     // before or after that command
                     let mut ok = e.status == *st;
+                    // ... or what the previous main-shell probe itself returned (a silent command
+                    // such as `read` may lie between the trap and the next probe)
+                    if !ok && idx > 0 {
+                        if let Some(prev) = base.get(idx - 1) {
+                            ok = probe_status.get(&prev.0).copied() == Some(e.status);
+                        }
+                    }
                     if !ok {
                         // position in the baseline (all processes) right after the last main-shell
                         // probe that has run so far
@@ -726,13 +751,24 @@ pub fn run_b(ctx: &Ctx) {
         nscripts,
         |i| {
             let mut rng = Rng::new(seed.wrapping_mul(0xC11B).wrapping_add(i as u64));
-            let script = gen_script(&mut rng);
-            let base_out = run_with_injection(&script, Strategy::Fifo, Inject::None);
+            let interactive = i % 3 == 2;
+            let script = gen_script(&mut rng, interactive);
+            let base_out = run_with_injection(&script, Strategy::Fifo, Inject::None, interactive);
             ctx.eval();
             let base = main_ordinary(&base_out.events);
             if base_out.end != vsh::End::Done || base.len() < 3 {
                 ctx.violation("B:baseline", format!("baseline run failed: {:?}\nscript:\n{script}\n{}", base_out.end, base_out.err()));
                 return;
+            }
+            // exit status each probe returns, from the script text (`probe -s N kID`)
+            let mut probe_status: BTreeMap<String, i32> = BTreeMap::new();
+            for part in script.split("probe -s ").skip(1) {
+                let mut it = part.split_whitespace();
+                if let (Some(n), Some(id)) = (it.next(), it.next()) {
+                    if let Ok(n) = n.parse::<i32>() {
+                        probe_status.insert(id.trim_end_matches([';', ')', '"']).to_string(), n);
+                    }
+                }
             }
             let steps = base_out.steps;
             let mut injections: Vec<(Strategy, Inject)> = Vec::new();
@@ -760,11 +796,11 @@ pub fn run_b(ctx: &Ctx) {
             let mut total_traps = 0i64;
             let mut total_inj = 0i64;
             for (st, inj) in injections {
-                let out = run_with_injection(&script, st.clone(), inj);
+                let out = run_with_injection(&script, st.clone(), inj, interactive);
                 ctx.eval();
                 let ninj = out.events.iter().filter(|e| e.kind == "inject").count();
                 total_inj += ninj as i64;
-                match check_timeline(&base, &base_out.events, &out) {
+                match check_timeline(&base, &base_out.events, &probe_status, &out) {
                     Ok(n) => {
                         total_traps += n as i64;
                         if ninj > 0 {
@@ -779,7 +815,7 @@ pub fn run_b(ctx: &Ctx) {
                             .collect();
                         ctx.violation(
                             format!("B:{sig}"),
-                            format!("{why}\nscript:\n{script}\nschedule {st:?}, injection {inj:?}\ntimeline (pid:probe, <<USR1>> = delivery from outside): {}\nstderr:\n{}", tl.join(" "), out.err()),
+                            format!("{why}\n{}script:\n{script}\nschedule {st:?}, injection {inj:?}\ntimeline (pid:probe, <<USR1>> = delivery from outside): {}\nstderr:\n{}", if interactive { "interactive shell (-i +m), commands fed line by line through a pipe\n" } else { "" }, tl.join(" "), out.err()),
                         );
                         break;
                     }
